@@ -5,6 +5,7 @@ import json
 import time
 import os
 import random
+import re
 
 from . import env, gen, procs, stubs
 from . import sched
@@ -241,8 +242,38 @@ def corpus(rng, b=0):
         p_dec = 0.4
     if flood:
         p_dec = max(p_dec, 0.8)
+    # the two directions meet in the symbol tables: decoder inputs spelt with the very atom symbols
+    # that encoding this batch's SMILES produces (bracket atoms, normalised the way the encoder does)
+    both = sorted({_as_selfies_symbol(m) for x in smi if len(x) < 400 for m in re.findall(r"\[[^\]]+\]", x)} - {None})
+    if both:
+        for _ in range(2):
+            pick = rng.sample(both, min(len(both), rng.randint(1, 4)))
+            dec.append("[C]" + "".join(pick) + rng.choice(("[C]", "[=O]", "[Ring1][C]", "")))
     info = {"features": feats, "smiles_theme": theme, "flood": flood, "p_dec": p_dec, "deep": deep, "medium": medium}
     return dec, smi, info
+
+
+_SMI_ATOM = re.compile(r"\[(\d*)([A-Za-z][a-z]?)(@{0,2})(H\d*)?([+-]+\d*)?(?::\d+)?\]$")
+
+
+def _as_selfies_symbol(atom):
+    """SMILES bracket atom -> the SELFIES symbol the encoder writes for it (isotope, element in upper
+    case, chirality, H count as H<n>, charge as +n / -n).  Approximate on purpose: a wrong guess is
+    just another novel symbol."""
+    m = _SMI_ATOM.match(atom)
+    if not m:
+        return None
+    iso, el, chi, h, ch = m.groups()
+    el = el[0].upper() + el[1:]
+    out = "[" + iso + el + chi
+    if h:
+        out += "H" + (h[1:] or "1")
+    if ch:
+        sign = ch[0]
+        n = ch.lstrip("+-")
+        n = int(n) if n else len(ch)
+        out += "%s%d" % (sign, n)
+    return out + "]"
 
 
 def gen_table(rng):
